@@ -19,6 +19,8 @@ VARIANTS = {
     'tsan':       dict(cc='g++', flags=['-std=c++11', '-O1', '-fsanitize=thread', '-DVF_TSAN'] + _G, env=TSAN_ENV, extra_src=['vlistshim.cpp']),
     'tsan17':     dict(cc='g++', flags=['-std=c++17', '-O1', '-fsanitize=thread', '-DVF_TSAN'] + _G, env=TSAN_ENV, extra_src=['vlistshim.cpp']),
     'O0':         dict(cc='g++', flags=['-std=c++11', '-O0'] + _G),
+    'asan17-fault': dict(cc='g++', flags=['-std=c++17', '-O1', '-fsanitize=address,undefined', '-fno-sanitize-recover=all'] + _G, env=ASAN_ENV, extra_src=['vnew.cpp']),
+    'clang-asan17-fault': dict(cc='clang++', flags=['-std=c++17', '-O1', '-fsanitize=address,undefined', '-fno-sanitize-recover=all', '-fno-sanitize=object-size'] + _G, env=ASAN_ENV, extra_src=['vnew.cpp']),
 }
 # the C20 matrix: compiler x standard x optimisation
 for _cc, _ccn in (('g++', 'gcc'), ('clang++', 'clang')):
@@ -33,11 +35,11 @@ def J(driver, variant, mode, quick, thorough, **kw):
     return d
 
 
-def JS(driver, variant, mode, quick, thorough, masks, **kw):
+def JS(driver, variant, mode, quick, thorough, masks, macro='VF_CFG_MASK', **kw):
     """one job per configuration subset, so that the subsets compile in parallel"""
     out = []
     for m in masks:
-        d = J(driver, variant, mode, quick, thorough, defs=['-DVF_CFG_MASK=0x%x' % m], **kw)
+        d = J(driver, variant, mode, quick, thorough, defs=['-D%s=0x%x' % (macro, m)], **kw)
         out.append(d)
     return out
 
@@ -179,6 +181,26 @@ CHECKS['C08'] = dict(
     level_note='Trusted: the counted types (magic word + per-id live counts), LeakSanitizer. Exceptions are C09.',
 )
 
+CHECKS['C09'] = dict(
+    title='Exceptions propagate and leave every container consistent and leak-free',
+    level='fault_enumeration',
+    rule='8 target families (CallbackList with std::function and custom callback; EventDispatcher over std::map with a throwing key comparison/copy and over unordered_map with throwing hash/==; '
+         'EventQueue with std::list and OrderedQueueList; ScopedRemover/CounterRemover/ConditionalRemover on list and dispatcher; HeterCallbackList/HeterEventDispatcher/HeterEventQueue) x generated '
+         'histories of 8-20 operations; pass 1 counts, per operation, the points where user code runs (callback copy/invoke/==, payload copy/move, key copy/compare/hash, predicate, condition) or memory '
+         'is allocated (replaced global operator new); pass 2 replays the history once for EVERY operation i and EVERY point k (evenly sampled above 40 per operation), arms the k-th point of operation i, '
+         'requires the exception to reach the caller unchanged (VFault / bad_alloc; a throw that dies in noexcept is caught by the terminate handler), compares the observable content with the pre-call '
+         'model for the strong-guarantee operations, with the read-back-and-constrained model for the others, continues the rest of the history under the model and checks the ledger after destruction; '
+         '1 in 5 runs arms a second fault later; evaluations = histories, non-trivial = history with >=20 fault points, distinct = history hash',
+    jobs=JS('drv_fault', 'asan17-fault', '', 160, 8000, [0x03, 0x0c, 0x30, 0xc0], shards=4, shards_thorough=8)
+         + JS('drv_fault', 'clang-asan17-fault', '', 64, 2000, [0x0f, 0xf0], seed_offset=1, shards=8, shards_thorough=8),
+    assumptions=['takeEvent, ScopedRemover::reset and dispatcher copy-assignment are not in the statement\'s strong-guarantee list: after a fault their result is read back and only constrained',
+                 'after an exception escaping a processing call any part of the batch may be gone, events enqueued meanwhile must all remain'],
+    technique='fault enumeration: count-down throwing from every user-code point and every allocation of every operation of generated histories, differential model oracle, instance ledger, ASan+LeakSanitizer',
+    level_text='Fault enumeration: within each generated history the fault space (operation x k-th fault point) is enumerated completely up to 40 points per operation, i.e. tens of thousands (quick) to millions '
+               '(thorough) of injected faults, each followed by the consistency, usability and leak oracles.',
+    level_note='Trusted: replay determinism of the generator (prefix replays identically), the replaced operator new, the model.',
+)
+
 CHECKS['C10'] = dict(
     title='Copies are independent, moves transfer, swaps exchange; results fully functional',
     level='exploration',
@@ -242,6 +264,24 @@ CHECKS['C13'] = dict(
     level_note='Trusted: model, generator.',
 )
 
+MH = [1 << i for i in range(9)]
+CHECKS['C14'] = dict(
+    title='Heterogeneous classes route by prototype and never confuse stored types',
+    level='exploration',
+    rule='9 configurations (HeterCallbackList, HeterEventDispatcher exclude-/include-event, HeterEventQueue exclude-/include-event with int and std::string keys; 7 prototype kinds with non-trivial payloads of '
+         'different sizes in 3 listing orders; single and multi threading) x seeded histories of listener management, invocation/dispatch/enqueue with 16 argument shapes (lvalues, temporaries, convertible '
+         'types), process/processOne/processIf with 11 predicates (one per prototype, several callable with 2,3 or all prototypes)/clearEvents, long enough to recycle queue slots across payload kinds; the '
+         'expected prototype is computed by an independent std::is_invocable fold; every listener and predicate call is checked online; payload ledger; non-trivial: queues - >=3 prototypes enqueued, a '
+         'processIf over own and foreign events, a slot recycled to another kind, >=1 listener call; lists/dispatchers - listeners of >=3 prototypes, a callable accepted by several prototypes, a successful '
+         'remove, >=1 call; distinct = trace hash + configuration',
+    jobs=JS('drv_heter', 'asan17', 'all', 9000, 450000, MH, shards=2, shards_thorough=4) + JS('drv_heter', 'clang-asan17', 'pif', 4500, 180000, MH, seed_offset=1, shards=2, shards_thorough=4),
+    assumptions=['processIf completeness is not asserted (only: right prototypes, queue order per prototype, at most one examination per event, accepted events dispatched once, result)',
+                 'listener changes from inside callbacks belong to C02'],
+    technique='online differential monitor with independent prototype-selection oracle, typed payload ledger, slot-recycling model, g++ and clang++, ASan+UBSan (type confusion shows as wild reads)',
+    level_text='Exploration over mixed-prototype histories under both compilers; ASan/UBSan turn type confusion on non-trivial payloads into reports.',
+    level_note='Trusted: the harness\'s own is_invocable fold as the definition of "first listed prototype callable with".',
+)
+
 CHECKS['C15'] = dict(
     title='No listener added through a ScopedRemover outlives its remover',
     level='exploration',
@@ -269,6 +309,37 @@ CHECKS['C16'] = dict(
     technique='online differential monitor (counter / first-true state machine on top of the snapshot list model), g++ and clang++, ASan+UBSan',
     level_text='Exploration over trigger counts, condition outcome sequences and re-entrant trigger shapes.',
     level_note='Trusted: model, generator.',
+)
+
+CHECKS['C17'] = dict(
+    title='AnyData holds, moves and destroys its value like the value itself',
+    level='exploration',
+    rule='AnyData capacities 16, 24, 64; stored types: an address-tracked Blob<N> for EVERY N from 1 to capacity+24 (sizeof==N, so N==capacity and capacity+1 are always present), int, std::string '
+         '(SSO and heap), unique_ptr, shared_ptr, move-only and shared boxes of size capacity and capacity+8; construction from lvalue/const lvalue/rvalue/const rvalue/temporary/held object (ledger must show '
+         'copy vs move); reads through get, T&, T*, getAddress twice (value, stable address, alignment); isType for all 48-96 instantiated types; move chains 1-20 with holders destroyed in random order; '
+         'round trips through EventQueue<int, void(const AnyData&)> (enqueue, dispatch, process*, clearEvents, destruction with events pending, re-entrant enqueue); random mode + exhaustive mode (every type x '
+         'every construction form); non-trivial = held >=1 inline and >=1 heap object and performed >=1 AnyData move; distinct = trace hash',
+    jobs=JS('drv_anydata', 'asan17', 'random', 30000, 1500000, [1, 2, 4], macro='VF_CAP_MASK', shards=3, shards_thorough=5)
+         + JS('drv_anydata', 'asan17', 'exhaustive', 240, 9000, [1, 2, 4], macro='VF_CAP_MASK', seed_offset=1, shards=3, shards_thorough=5),
+    assumptions=['over-aligned types (alignment > 8) are not promised by the statement and not stored', 'takeEvent/peekEvent do not compile with an AnyData argument and are not used'],
+    technique='differential runtime monitor with address-tracked payload ledger, exhaustive sweep over object sizes 1..capacity+24 and construction forms, ASan+UBSan',
+    level_text='Exploration + exhaustive size sweep: every size around the inline/heap boundary is stored, moved, queued and destroyed under the ledger.',
+    level_note='Trusted: the Blob registry (address keyed), generator.',
+)
+
+CHECKS['C18'] = dict(
+    title='AnyId keys are coherent: equality, ordering and hash agree',
+    level='exploration',
+    rule='6 configurations: Digester {std::hash, SmallHash (signed, range 4, salted per type: collisions across and within types)} x Storage {VStore (type tag + text, == and <), EmptyAnyStorage, NStore '
+         '(stores the value, no operators)}; per case a pool of 36-44 ids from ints/longs/chars/strings with duplicates and cross-type equal numbers; ALL ordered pairs and ALL triples of the pool checked '
+         'for: == equivalence, < strict weak order, incomparability classes == equality classes, equal ids hash equally (also on copies), ground truth (value equality for VStore, digest equality otherwise); '
+         'routing through EventDispatcher with unordered_map (default) and std::map (policy): exactly the listeners registered under ground-truth-equal ids run; non-trivial = pool has >=1 colliding-digest '
+         'unequal pair and >=1 duplicate; distinct = trace hash; exhaustive within each pool',
+    jobs=[J('drv_anyid', 'asan17', 'mixed', 24000, 1200000, shards=8, shards_thorough=16), J('drv_anyid', 'clang-asan17', 'dense', 8000, 300000, seed_offset=1, shards=8, shards_thorough=16)],
+    assumptions=['statement covers Storage types supporting both == and <, or neither'],
+    technique='algebraic-law monitor: all pairs and triples of generated id pools + routing oracle through both map kinds, g++ and clang++, ASan+UBSan',
+    level_text='Exploration: ~64k triples per pool, tens of thousands of pools per quick run.',
+    level_note='Trusted: ground-truth equality defined by the harness per storage kind.',
 )
 
 CHECKS['C19'] = dict(
